@@ -8,9 +8,13 @@ import time
 from dataclasses import dataclass, field
 from fractions import Fraction
 
+import sys
+
 import z3
 
 from . import values as V
+
+sys.setrecursionlimit(20000)
 
 
 @dataclass
@@ -85,6 +89,7 @@ def is_nonlinear(formulas) -> bool:
 def ackermannize(formulas):
     """Replace uninterpreted applications by fresh constants + congruence axioms."""
     memo = {}
+    appidx = {}
     apps = {}  # decl name -> list[(args_rewritten, const)]
     counter = [0]
 
@@ -98,14 +103,16 @@ def ackermannize(formulas):
         ch = [rw(c) for c in t.children()]
         if is_uf_app(t):
             d = t.decl()
-            lst = apps.setdefault(d.name() + "/" + str(d.arity()), [])
-            for args, c in lst:
-                if all(a.eq(b) for a, b in zip(args, ch)):
-                    memo[k] = c
-                    return c
+            dkey = d.name() + "/" + str(d.arity())
+            akey = (dkey, tuple(c.get_id() for c in ch))
+            if akey in appidx:
+                memo[k] = appidx[akey]
+                return appidx[akey]
+            lst = apps.setdefault(dkey, [])
             counter[0] += 1
             c = z3.Const(f"ack!{d.name()}!{counter[0]}", t.sort())
             lst.append((ch, c))
+            appidx[akey] = c
             memo[k] = c
             return c
         if ch:
@@ -226,10 +233,20 @@ def build_query(ob, axioms, rounds=2):
     insts = []
     seen_inst = set()
     for _ in range(rounds):
-        cands = [(t,) for t in index_terms(formulas + insts)]
+        cur = formulas + insts
+        cands = [(t,) for t in index_terms(cur)]
         new = []
         for u in ob.univ:
-            for f in u.instances(cands if u.arity == 1 else ()):
+            more = list(cands) if (u.arity == 1 and u.generic) else []
+            if u.decls:
+                names = {d.name() for d in u.decls}
+                seen = {}
+                for f in cur:
+                    subterms(f, seen)
+                for x in seen.values():
+                    if is_uf_app(x) and x.decl().name() in names and x.num_args() == u.arity:
+                        more.append(tuple(x.children()))
+            for f in u.instances(more):
                 k = f.get_id()
                 if k not in seen_inst:
                     seen_inst.add(k)
@@ -242,6 +259,18 @@ def build_query(ob, axioms, rounds=2):
 
 
 def discharge(ob, axioms, timeout_s=20.0, want_smt2=False) -> Verdict:
+    t0 = time.time()
+    g0 = z3.simplify(ob.goal)
+    if z3.is_true(g0):
+        return Verdict("discharged", "simplifier", time.time() - t0, smt2="(assert false) ; goal simplifies to true" if want_smt2 else "")
+    # quick attempt: path condition only (no instantiation of universal facts): sound, often enough
+    qs = z3.Solver()
+    qs.set("timeout", 400)
+    qs.add(*ob.hyps)
+    qs.add(*axioms)
+    qs.add(z3.Not(ob.goal))
+    if qs.check() == z3.unsat:
+        return Verdict("discharged", "z3-default", time.time() - t0, smt2=qs.to_smt2() if want_smt2 else "")
     hyps, goal = build_query(ob, axioms)
     hyps = hyps + [a for a in V.AXIOMS if all(not a.eq(h) for h in hyps[-0:])] if False else hyps
     formulas = hyps + list(V.AXIOMS) + [z3.Not(goal)]
